@@ -28,18 +28,48 @@ def targetNode : WOp → Option Nat
   | .pull _ dest _ => some dest
   | _ => none
 
+/-- `seen_files` in `UpdateableGroup.update`: of the pending requests into a group only the first one for each file is
+    examined in a pass, so that two pulls never write the same destination file at once -/
+def firstPerFile (seen : List (Nat × Nat)) : List WReq → List WReq
+  | [] => []
+  | r :: rs => if seen.contains (r.file, r.groupTo) then firstPerFile seen rs
+               else r :: firstPerFile ((r.file, r.groupTo) :: seen) rs
+
+/-- pending requests into groups that have a node usable by this host, in row order -/
+def World.pendingInto (w : World) (hv : HostView) : List WReq :=
+  w.reqs.filter (fun r => !r.completed && !r.cancelled &&
+      w.nodes.any (fun n => n.group == r.groupTo && (w.usableIds hv).contains n.id))
+
 /-- the first-level steps one update iteration creates: checks of wanted suspect copies and
-    deletions on usable nodes, and pull decisions for pending requests into groups that have a
-    usable node (`statOk`, `srcReady`, `unlinkFails` are environment inputs, fixed to the
+    deletions on usable nodes, and pull decisions for (the first per file of the) pending requests into groups that
+    have a usable node (`statOk`, `srcReady`, `unlinkFails` are environment inputs, fixed to the
     fault-free values here) -/
 def iterateOps (w : World) (hv : HostView) : List WOp :=
   let us := w.usableIds hv
   let checks := (w.copies.filter (fun c => us.contains c.node && c.has == .M && c.wants != .N)).map (fun c => WOp.check c true)
   let deletes := us.flatMap (fun n => (w.updateDelete n).filterMap (fun id =>
       (w.copies.find? (·.id == id)).map (fun c => WOp.deleteOne c false)))
-  let decides := (w.reqs.filter (fun r => !r.completed && !r.cancelled &&
-      w.nodes.any (fun n => n.group == r.groupTo && us.contains n.id))).map (fun r => WOp.decide r true)
+  let decides := (firstPerFile [] (w.pendingInto hv)).map (fun r => WOp.decide r true)
   checks ++ deletes ++ decides
+
+/-! ### node initialisation (C07: "an uninitialised node is initialised only on explicit request") -/
+
+/-- a request filed by `alpenhorn node init` (an import request for the path `ALPENHORN_NODE`) -/
+structure InitReq where
+  id : Nat
+  node : Nat
+  completed : Bool
+  deriving DecidableEq, Repr
+
+/-- `UpdateableNode.check_init` in the main loop: for every local active node whose marker check fails, an init task
+    is queued iff a pending init request *for that node* exists; result: (node id, request id) pairs -/
+def initTasks (w : World) (hv : HostView) (reqs : List InitReq) : List (Nat × Nat) :=
+  (w.nodes.filter (fun n => n.host == hv.host && n.active && !hv.initialised n.id)).filterMap
+    (fun n => (reqs.find? (fun r => r.node == n.id && !r.completed)).map (fun r => (n.id, r.id)))
+
+/-- the init task itself: re-check, write the marker, re-check; returns (marker written, request completed) -/
+def initTask (initialisedNow writeOk : Bool) : Bool × Bool :=
+  if initialisedNow then (false, true) else if writeOk then (true, true) else (false, false)
 
 /-- follow-up steps of a dispatched request onto the (single) usable node `dest` of its group -/
 def followUps (r : WReq) (dest : Nat) (onDisk : Bool) (t : World.Transfer) : List WOp :=
